@@ -155,6 +155,15 @@ func hsAgree(cs hsCase) string {
 	uid := uidOfClass(cs.UIDClass)
 	r := newE2ERig(newMemManager(), [][]byte{uid}, nil)
 	r.sta.ProxyBook = map[string]net.Addr{cs.ProxyMethod: tcpAddr{"proxy:8388"}, "decoy-method": tcpAddr{"decoy:1"}}
+	if vrt.Cur() == nil {
+		// free-running (CDN) cases: both clocks are frozen, so that a clock offset one second inside the
+		// window stays inside it however long the machine takes (under the scheduler time is virtual anyway)
+		t0 := time.Now()
+		r.sta.WorldState.Now = func() time.Time { return t0 }
+		if !cs.UseAbsClock {
+			cs.UseAbsClock, cs.AbsClock = true, t0.Unix()+int64(cs.Offset)
+		}
+	}
 	decoy := r.net.Listen("decoy:1", false)
 	_ = decoy
 	r.serve(1)
@@ -275,7 +284,22 @@ func hsAgree(cs hsCase) string {
 
 // runSchedOnce runs main once under the scheduler's deterministic default schedule (delay bound 0).
 func runSchedOnce(seed uint64, horizon time.Duration, main func()) vrt.Result {
+	return runSchedOnceDraw(seed, horizon, -1, main)
+}
+
+// runSchedOnceDraw: as runSchedOnce, and with draw >= 0 every owned random draw from a small range
+// (rand.Int with n <= 16: e.g. the server's choice among its certificate lengths) yields draw mod n,
+// so that a loop over draw = 0..15 visits every value of every such draw; large draws stay on the PRF.
+func runSchedOnceDraw(seed uint64, horizon time.Duration, draw int, main func()) vrt.Result {
 	sc := &vrt.Scenario{Opt: vrt.Options{Seed: seed, Delay: true, HorizonNs: int64(horizon)}, Main: main}
+	if draw >= 0 {
+		sc.Opt.RandInt = func(n int, tag string) int {
+			if tag == "rand.Int" && n <= 16 {
+				return draw % n
+			}
+			return -1
+		}
+	}
 	for {
 		e := &vrt.Explorer{Sc: sc, Bound: 0}
 		r, _ := e.Replay(nil)
